@@ -511,6 +511,54 @@ func c10wireScenario(bd *bed.Bed, cr *c10creds, c *c10case, s *vt.Sink, st *c10s
 		with(p, wa, "wrong", c10passwords[wpw], wpw)
 		p.Close()
 	}
+	// (d) an authorization that was accepted once, attached unchanged to ANOTHER request of the
+	// same connection: a Digest one was computed for the first request's method and URL
+	replay := func(kind string) {
+		p, wa := challenge()
+		if p == nil {
+			return
+		}
+		defer p.Close()
+		se := &auth.Sender{WWWAuth: wa, User: user, Pass: pass}
+		if se.Initialize() != nil {
+			return
+		}
+		first := &base.Request{Method: base.Describe, URL: bed.MustURL(u), Header: base.Header{"Accept": base.HeaderValue{"application/sdp"}}}
+		se.AddAuthorization(first)
+		res := p.Do(first)
+		if res.Timeout || res.Closed || res.Res == nil || res.Res.StatusCode != base.StatusOK {
+			return // (reported by scenario b)
+		}
+		hv := first.Header["Authorization"]
+		var req *base.Request
+		switch kind {
+		case "replay_url":
+			req = &base.Request{Method: base.Describe, URL: bed.MustURL(bd.URL("elsewhere")),
+				Header: base.Header{"Accept": base.HeaderValue{"application/sdp"}, "Authorization": hv}}
+		default: // replay_method: SETUP of a track of the same URL (the URL passes by the base-URL rule)
+			tu := u + "/trackID=0"
+			req = &base.Request{Method: base.Setup, URL: bed.MustURL(tu), Header: base.Header{
+				"Transport":     base.HeaderValue{"RTP/AVP/TCP;unicast;interleaved=0-1"},
+				"Authorization": hv}}
+		}
+		res = p.Do(req)
+		if res.Timeout {
+			tr.Emit("hang", "m", kind)
+			return
+		}
+		status := 0
+		if !res.Closed && res.Res != nil {
+			status = int(res.Res.StatusCode)
+		}
+		k, ok := kept(p)
+		if !ok {
+			return
+		}
+		st.wires++
+		tr.Emit("wire", "creds", kind, "status", status, "kept", k, "pw", pw, "why", c10why(pass), "sent", c10scheme(hv))
+	}
+	replay("replay_url")
+	replay("replay_method")
 	tr.Emit("end")
 }
 
